@@ -4,6 +4,7 @@ SPEC = {
     "level_note": "Trusted: Coq kernel + vm_compute; the Go driver and the rendering of cases; time.Time arithmetic is modelled on Z without saturation (instants within +-2^62 ns).",
     "drivers": [{"pkg": "internal/plugin", "test": "TestVerifC16"},
                 {"pkg": "internal/plugin", "test": "TestVerifC16Epoch"},
+                {"pkg": "internal/plugin", "test": "TestVerifC16SlowLookup"},
                 # on the wire: the real Advertiser.Run under a virtual clock; every RA written carries the remainder at the write
                 {"pkg": "internal/corerad", "test": "TestVerifC16Run", "newgo": True, "timeout": 600, "arch386": []}],
     "rule": "random (epoch, valid, preferred<=valid | route lifetime, deprecated flag) with boundary-biased "
